@@ -1,6 +1,7 @@
 import PynencModel.Model.Proto
 import PynencModel.Model.Recovery
 import PynencModel.Model.Concurrency
+import PynencModel.Model.OrchQueries
 import PynencModel.Gen.StatusTable
 /-
   Driver fragment for the orchestrator model (C04, C06, C07, C16): indexes, heartbeats, scans, retries,
@@ -107,6 +108,10 @@ def handle (w : St) : List String → Option (St × String)
   | ["o.retries.get", id] =>
     match untok id with
     | some (some i) => some (w, toString (w.orch.getRetries i))
+    | _ => bad w
+  | ["o.forget", id] =>            -- one purge-due invocation leaves the orchestrator (`auto_purge` / `clean_up_invocation`)
+    match untok id with
+    | some (some i) => some ({ w with orch := w.orch.forget i }, "ok")
     | _ => bad w
   | ["o.push", id] =>
     match untok id with
